@@ -15,20 +15,20 @@ add("rev-no-status-recheck", "mutants/pinned/F2b-no-status-recheck.diff", "C09",
 add("rev-lost-wakeup", "revert:a2bf0c0", "C06", "broadcast without the waiters' mutex (pinned defect)")
 add("rev-purge-park", "revert:c934275", "C06", "purge while parked never wakes WaitUntilFinished (pinned defect)")
 add("rev-reaper-toctou", "revert:3190e40", "C01,C03,C18,C19", "idle remover stops a node the dispatcher just took (pinned defect)")
-add("rev-reaper-leak", "revert:a0cb262", "C18", "idle remover goroutine survives Stop (pinned defect)")
+add("rev-reaper-leak", "mutants/pinned/F7-reaper-leak-r.diff", "C18", "idle remover goroutine survives Stop (pinned defect)")
 add("rev-bind-restarts", "revert:fa74de0", "C14,C02", "Bind on a paused/stopped worker starts it (pinned defect)")
-add("rev-stale-listener", "mutants/pinned/F10-stale-context-listener.diff", "C14", "context listener of the previous run stops the restarted worker (pinned defect)")
-add("rev-restart-races", "revert:83a942a", "C19", "fields replaced by Restart read without the mutex (pinned defect)")
+add("rev-stale-listener", "mutants/pinned/F10-stale-listener-r.diff", "C14", "context listener of the previous run stops the restarted worker (pinned defect)")
+add("rev-restart-races", "mutants/pinned/F11-restart-races-r.diff", "C19", "fields replaced by Restart read without the mutex (pinned defect)")
 add("rev-status-rewind", "revert:45d0037", "C16", "late queued store rewinds the status (pinned defect)")
 add("rev-len-negative", "revert:d1c3d81", "C17", "Queue.Len from two unsynchronised loads (pinned defect)")
 add("rev-double-register", "revert:8d1bf44", "C15,C17", "persistent priority queue registered twice (pinned defect)")
 add("rev-shared-res-race", "revert:0dc7c53", "C19", "plain Response.res shared by a batch (pinned defect)")
 add("rev-purge-drop", "revert:8676569", "C10,C01", "Values();Purge() drops a job enqueued in between (pinned defect)")
 add("rev-stale-loop", "revert:fb8db3a", "C17,C02", "event loop of the previous run reserves slots after Restart (defect found by C17)")
-add("rev-listener-order", "revert:a878198", "C14", "listener started before the status store (defect found by C14)")
+add("rev-listener-order", "revert:a878198", "C14", "listener started before the status store (defect found by C14). No longer a defect on the final tree: since 4d9203e the listener's stop waits for the lifecycle lock that start holds, so the order does not matter; kept as a control that has to stay silent")
 add("rev-ackid-race", "revert:ce0744a", "C19", "ackId read by Close while the dispatcher stores it (defect found by C19)")
 add("rev-tunepool-idle", "revert:69a0b30", "C18", "TunePool and a finishing worker can empty the idle pool (defect found by C18)")
-add("rev-lifecycle-mutex", "mutants/pinned/F20-no-lifecycle-mutex.diff", "C14", "lifecycle calls act on a stale status (defect found by C14; revert of 4d9203e and of 4e3b81c, which builds on it)")
+add("rev-lifecycle-mutex", "mutants/pinned/F20-no-lifecycle-mutex.diff", "C14", "lifecycle calls act on a stale status (defect found by C14; revert of 4d9203e and of the two later repairs that build on it)")
 add("rev-pause-no-wakeup", "revert:babed52", "C06", "WaitUntilFinished sleeps forever when the worker is paused/stopped with nothing in flight (defect found by C06)")
 add("rev-stale-listener-stop", "revert:4e3b81c", "C14,C09", "listener of an earlier run stops the restarted worker (defect found by C09)")
 # own mutants
@@ -37,7 +37,8 @@ for f in sorted(os.listdir(os.path.join(ROOT, "mutants"))):
         prop = f.split("-")[1]
         extra = {"own-C13-completion-no-notify.diff": "C13,C03", "own-C03-no-notify-after-completion.diff": "C03,C13", "own-C02-guard-lte.diff": "C02,C17",
                  "own-C01-no-closed-skip.diff": "C01,C10", "own-C18-stop-without-stoptickers.diff": "C18"}.get(f, prop)
-        add(f[:-5], "mutants/" + f, extra, "")
+        note = {"own-C01-no-closed-skip.diff": "the dispatcher's first closed check removed: an equivalent change (the re-check after the status change does the same); kept as a control that has to stay silent"}.get(f, "")
+        add(f[:-5], "mutants/" + f, extra, note)
 if only: catalog = [c for c in catalog if only in c[0]]
 
 def run(entry):
@@ -58,7 +59,7 @@ def run(entry):
         suite = "passes" if r.returncode == 0 else "FAILS: " + ",".join(sorted(set(re.findall(r"--- FAIL: (\S+)", r.stdout)))[:3])
         res = []
         for c in checks.split(","):
-            r = sh(f"VERIF_REPO={wt} VERIF_EVIDENCE_DIR=/tmp/msw-ev-{name} VERIF_REPLAY_DIR=/tmp/msw-rp-{name} bin/vcheck run {c} --tier {tier}", cwd=ROOT)
+            r = sh(f"VCHECK_STALL_S=90 VERIF_REPO={wt} VERIF_EVIDENCE_DIR=/tmp/msw-ev-{name} VERIF_REPLAY_DIR=/tmp/msw-rp-{name} bin/vcheck run {c} --tier {tier}", cwd=ROOT)
             fps = sorted(set(re.findall(r"fingerprint=(.*?) occurrences", r.stdout)))
             m = re.search(r"evaluations=(\d+).*wall=([\d.]+)s", r.stdout)
             res.append((c, r.returncode, fps[:3], m.group(1) if m else "?", m.group(2) if m else "?"))
